@@ -1,5 +1,6 @@
 import Skc.Lemmas.Where
 import Skc.Model.Det
+import Skc.Lemmas.Sbs
 
 /-! # C08 — moving window: symmetric two-sided scores and peak-of-run detections
 
@@ -18,6 +19,81 @@ theorem mw_scores_def {α : Type} [Zero α] (cs : Nat → Nat → Nat → α) (n
 theorem where_exactly_maximal_runs (ind : List Bool) (a b : Nat) :
     (a, b) ∈ whereRuns ind ↔ IsRun ind a b :=
   whereRuns_spec ind a b
+
+/-- the indicator the code passes to `where`: `scores > threshold` at every position -/
+def aboveInd {α : Type} [LT α] [DecidableLT α] (scores : Nat → α) (n : Nat) (thr : α) : List Bool :=
+  (List.range n).map (fun t => decide (thr < scores t))
+
+/-- **C08, peak-of-run detections (soundness)**: every reported changepoint is the position of the
+    maximum score within a maximal run of at least `min_detection_interval` consecutive positions
+    whose score exceeds the threshold. -/
+theorem mw_changepoint_is_peak_of_run {α : Type} [LinearOrder α] (scores : Nat → α) (n : Nat)
+    (thr : α) (mdi : Nat) :
+    ∀ c ∈ mwCpts scores n thr mdi, ∃ a b, IsRun (aboveInd scores n thr) a b ∧ mdi ≤ b - a ∧
+      a ≤ c ∧ c < b ∧ ∀ t, a ≤ t → t < b → scores t ≤ scores c := by
+  intro c hc
+  simp only [mwCpts, List.mem_map, List.mem_filter, decide_eq_true_eq] at hc
+  obtain ⟨⟨a, b⟩, ⟨hrun, hlen⟩, rfl⟩ := hc
+  have hR : IsRun (aboveInd scores n thr) a b := (whereRuns_spec _ a b).1 hrun
+  have hab : a < b := hR.1
+  obtain ⟨h1, h2, h3⟩ := argmaxRange_spec scores (b - a - 1) (a + 1) a
+  refine ⟨a, b, hR, hlen, ?_, ?_, ?_⟩
+  · rcases h1 with h1 | h1
+    · simp only at h1 ⊢; omega
+    · simp only at h1 ⊢; omega
+  · rcases h1 with h1 | h1
+    · simp only at h1 ⊢; omega
+    · simp only at h1 ⊢; omega
+  · intro t ht1 ht2
+    by_cases hta : t = a
+    · subst hta; exact h2
+    · exact h3 t (by omega) (by omega)
+
+/-- **C08, peak-of-run detections (completeness)**: every maximal above-threshold run of at least
+    `min_detection_interval` positions yields a changepoint inside it. -/
+theorem mw_every_long_run_detected {α : Type} [LinearOrder α] (scores : Nat → α) (n : Nat)
+    (thr : α) (mdi : Nat) (a b : Nat) (hR : IsRun (aboveInd scores n thr) a b) (hlen : mdi ≤ b - a) :
+    ∃ c ∈ mwCpts scores n thr mdi, a ≤ c ∧ c < b := by
+  have hrun : (a, b) ∈ whereRuns (aboveInd scores n thr) := (whereRuns_spec _ a b).2 hR
+  refine ⟨argmaxRange scores (a + 1) (b - a - 1) a, ?_, ?_⟩
+  · simp only [mwCpts, List.mem_map, List.mem_filter, decide_eq_true_eq]
+    exact ⟨(a, b), ⟨hrun, hlen⟩, rfl⟩
+  · have hab : a < b := hR.1
+    obtain ⟨h1, _, _⟩ := argmaxRange_spec scores (b - a - 1) (a + 1) a
+    rcases h1 with h1 | h1 <;> omega
+
+/-- **C08 / C04**: the reported changepoints are strictly increasing — runs are disjoint and in
+    scan order, and each changepoint lies inside its run. -/
+theorem mw_changepoints_strictly_increasing {α : Type} [LinearOrder α] (scores : Nat → α) (n : Nat)
+    (thr : α) (mdi : Nat) : (mwCpts scores n thr mdi).Pairwise (· < ·) := by
+  simp only [mwCpts]
+  apply List.Pairwise.map (R := fun r r' : Nat × Nat =>
+    r.2 ≤ r'.1 ∧ r.1 < r.2 ∧ r'.1 < r'.2)
+  · intro r r' ⟨h1, h2, h3⟩
+    obtain ⟨a1, _, _⟩ := argmaxRange_spec scores (r.2 - r.1 - 1) (r.1 + 1) r.1
+    obtain ⟨b1, _, _⟩ := argmaxRange_spec scores (r'.2 - r'.1 - 1) (r'.1 + 1) r'.1
+    omega
+  · apply List.Pairwise.filter
+    have hp := whereRuns_pairwise (aboveInd scores n thr)
+    have hne : ∀ r ∈ whereRuns (aboveInd scores n thr), r.1 < r.2 := by
+      intro r hr
+      exact ((whereRuns_spec _ r.1 r.2).1 hr).1
+    exact (List.Pairwise.and_mem.1 hp).imp (fun ⟨ha, hb, hab⟩ => ⟨hab, hne _ ha, hne _ hb⟩)
+
+/-- **C08, time reversal of the scores**: if the change score of the reversed series on a cut is
+    the change score of the original series on the mirrored cut, then the moving-window score at
+    `t` of the reversed series is the score at `n - t` of the original one. -/
+theorem mw_scores_reversal {α : Type} [Zero α] (cs cs' : Nat → Nat → Nat → α) (n b t : Nat)
+    (hrev : ∀ s k e, e ≤ n → cs' s k e = cs (n - e) (n - k) (n - s)) (ht : t ≤ n) :
+    mwScores cs' n b 0 t = mwScores cs n b 0 (n - t) := by
+  simp only [mwScores, Nat.add_zero]
+  by_cases h : b ≤ t ∧ t + b ≤ n
+  · have h' : b ≤ n - t ∧ n - t + b ≤ n := by omega
+    simp only [h, h', and_self, if_true]
+    rw [hrev (t - b) t (t + b) h.2]
+    congr 1 <;> omega
+  · have h' : ¬ (b ≤ n - t ∧ n - t + b ≤ n) := by omega
+    simp only [h, h', if_false]
 
 example : whereRuns [false, true, true, false, true] = [(1, 3), (4, 5)] := by decide
 
